@@ -720,6 +720,29 @@ func (eng *Engine) verify(c *Contract, prop string) (rep *FuncReport, err error)
 			st.assume(ex.evalClause(st, cl, ex.entry, bodyPos, nil, nil))
 		}
 	}
+	// `assert uses <lemma>`: a separately proved lemma is available to this function's obligations
+	for _, cl := range c.Clauses {
+		if cl.Kind == "assert" && strings.HasPrefix(cl.Text, "uses ") {
+			name := strings.TrimSpace(strings.TrimPrefix(cl.Text, "uses "))
+			found := false
+			for _, lm := range eng.cs.Lemmas {
+				if lm.Name == name && lm.Expr != nil && lm.Finding == "" {
+					found = true
+					if !hasProp(lm.Props, prop) {
+						ex.specErrs = append(ex.specErrs, c.Func+": lemma "+name+" is used but not proved under "+prop)
+					}
+					sc := &SpecCtx{old: st, binds: map[string]*Val{}, subst: map[types.Object]*Val{}, pkg: eng.typesPkg(lm.Pkg)}
+					ex.specDepth++
+					g := ex.eval(st, lm.Expr, sc)
+					ex.specDepth--
+					st.assume(g.S)
+				}
+			}
+			if !found {
+				ex.specErrs = append(ex.specErrs, c.Func+": unknown lemma "+name)
+			}
+		}
+	}
 	// object invariants of the receiver are assumed at entry
 	ex.objInvs(st, true, bodyPos)
 	// vacuity guard: the preconditions are satisfiable
